@@ -27,6 +27,9 @@ pub struct Case {
     pub yields_after: u8,
     /// 0: `DataStream::new` (queue handle); 1: a hand-written `Stream` converted with `DataStream::from`
     pub kind: u8,
+    /// the sink accepts at most this many bytes per `write` call (None: everything at once)
+    #[serde(default)]
+    pub short_write: Option<u16>,
 }
 
 thread_local! {
@@ -113,6 +116,7 @@ impl Property for C17 {
     const RULE: &'static str = "generated: 0–12 messages over all Unicode with \"\", LF, CR, CRLF, leading spaces and data:/event:/id:/: look-alikes over-represented × a producer schedule (0–3 Pending polls before each push, 0–3 after the last; bursts; completion with a non-empty queue) × two producer kinds (queue handle of DataStream::new, a hand-written Stream through DataStream::from). The handler's stream is sent through the real router and serializer on the harness's own executor, so the schedule is exactly the script. Oracle: independent response parser → strict chunk decoder (cross-checked with the chunked_transfer crate) → independent WHATWG event-stream parser: the data payloads equal the messages with CRLF/CR/LF normalised to LF, in order; no other field, event type or id appears; the stream ends with the zero chunk. Non-trivial = ≥ 2 messages with a yield between two pushes, or a message containing a line break; distinct by case.";
     const ASSUMPTIONS: &'static [&'static str] = &[
         "messages contain no NUL (the event-stream format cannot carry it in ids; data is unaffected but kept out for clarity)",
+        "a quarter of the cases write into a sink that accepts only 1–100 bytes per write call; what arrives must be the same stream",
         "yield = a Pending poll that wakes itself; an executor that re-polls on wake reproduces any pace of the producer as far as the consumer can observe",
     ];
 
@@ -132,8 +136,8 @@ impl Property for C17 {
         case.messages.iter().all(|m| !m.contains('\0')) && case.yields_before.iter().all(|y| *y <= 8) && case.yields_after <= 8
     }
     fn strategy(&self, _tier: Tier) -> BoxedStrategy<Case> {
-        (vec(message(), 0..=12), vec(prop_oneof![3 => Just(0u8), 2 => Just(1u8), 1 => 2u8..4], 12), 0u8..4, 0u8..2)
-            .prop_map(|(messages, yields_before, yields_after, kind)| Case { messages: messages.into_iter().map(|m| m.replace('\0', "")).collect(), yields_before, yields_after, kind })
+        (vec(message(), 0..=12), vec(prop_oneof![3 => Just(0u8), 2 => Just(1u8), 1 => 2u8..4], 12), 0u8..4, 0u8..2, prop::option::weighted(0.25, prop_oneof![1u16..=8, 9u16..=100]))
+            .prop_map(|(messages, yields_before, yields_after, kind, short_write)| Case { messages: messages.into_iter().map(|m| m.replace('\0', "")).collect(), yields_before, yields_after, kind, short_write })
             .boxed()
     }
 
@@ -153,7 +157,13 @@ impl Property for C17 {
         }
         obs.label(if case.kind % 2 == 0 { "queue-handle" } else { "custom-stream" });
         CURRENT.with(|c| *c.borrow_mut() = Some(case.clone()));
-        let o = match drive::request(&self.router, "GET", "/sse", &[("Host".into(), "t".into())], None) {
+        if case.short_write.is_some() {
+            obs.label("short-writes")
+        }
+        let before = drive::set_write_limit(case.short_write.map(|n| n as usize));
+        let ran = drive::request(&self.router, "GET", "/sse", &[("Host".into(), "t".into())], None);
+        drive::set_write_limit(before);
+        let o = match ran {
             Ok(o) => o,
             Err(e) => {
                 let key = if e.contains("zero chunk") || e.contains("chunk") { "chunked-framing" } else { "malformed-response" };
